@@ -14,7 +14,8 @@ ID = "C10"
 LEVEL = "exploration"
 FLAVOUR = "plain"
 TIMEOUT = 120
-RULE = ("points = (route R1|R2) x (struct reachable from FileMetaData/PageHeader) x (presence pattern: every "
+RULE = ("R3: every footer and page header of files written for each column kind x v1/v2 x codec x null pattern x "
+        "simple/hive, decoded strictly; points = (route R1|R2) x (struct reachable from FileMetaData/PageHeader) x (presence pattern: every "
         "subset of optional fields for structs with <= 6 optional fields, else none/all/each single/each pair) "
         "+ per-field special values (list lengths 0,1,2,14,15,16,300; string lengths 0,1,127,128,16383,16384; "
         "integer extremes of the declared width) + FileMetaData nestings r x c x k + large payloads "
@@ -193,8 +194,20 @@ def big_points(tier):
     return pts
 
 
+def written_points(tier):
+    """R3: the structures exactly as the writer builds them (footer and every page header of written files)"""
+    from mc import alphabets as A
+    pts = []
+    for kind in A.ALL_KINDS:
+        for v in (1, 2):
+            for comp in (None, "SNAPPY"):
+                pts.append({"kind": "written", "colkind": kind, "v": v, "comp": comp, "route": "R3"})
+    return pts
+
+
 def explore(run, tier):
     I = idl()
+    run.lattice("written", written_points(tier), "run_written")
     run.lattice("structs", struct_points(I, tier), "run")
     run.lattice("nesting", nesting_points(tier), "run")
     run.lattice("big", big_points(tier), "run")
@@ -471,6 +484,50 @@ def run(p):
         return bad("pickle_raised", "%s: %s" % (type(e).__name__, e))
     return {"ok": True, "outcome": "lossless", "nontrivial": bool(want),
             "counts": {"bytes": len(y), "tolerated_empty_list_type0": tc.deviations.get("empty_list_type0", 0)}}
+
+
+def run_written(p):
+    import os
+    import re
+    import pandas as pd
+    import fastparquet
+    from mc import alphabets as A, wr
+    from mc.scratch import scratch
+    from mc.specpq import file as F
+    kind = p["colkind"]
+    d = scratch()
+    errs = {}
+    files = 0
+    for pat in (["none", "alt"] if kind in A.NULLABLE_KINDS else ["none"]):
+        for scheme in ("simple", "hive"):
+            df = pd.DataFrame({"c": A.series(kind, 9, pat), "k": A.series("int64", 9, "none", 1, "k")})
+            path = os.path.join(d, "w.parquet" if scheme == "simple" else "wds")
+            try:
+                with wr.PageCfg(p["v"], wr.tiny_page_size(df, 4)):
+                    fastparquet.write(path, df, compression=p["comp"], file_scheme=scheme, row_group_offsets=[0, 5],
+                                      write_index=False, custom_metadata={"k": "v"}, stats=True)
+            except Exception:
+                continue
+            for f in wr.listing(path):
+                files += 1
+                data = open(f, "rb").read()
+                try:
+                    if os.path.basename(f) in ("_metadata", "_common_metadata"):
+                        F.read_footer(data)
+                    else:
+                        F.read_file(data)
+                except F.FormatError as e:
+                    m = re.search(r"does not follow the IDL: (\w+)\.(\w+)", str(e)) or re.search(r"does not follow the IDL: (\w+): (.{0,30})", str(e))
+                    if m:
+                        at = "%s.%s" % (m.group(1), m.group(2))
+                        errs.setdefault(at, "%s %s nulls=%s: %s" % (kind, os.path.basename(f), pat, e))
+                except Exception:
+                    pass
+    if errs:
+        sigs = [{"kind": "written", "route": "R3", "symptom": "not_idl_conformant", "at": at, "v": p["v"]} for at in errs]
+        return {"ok": False, "outcome": "not_idl_conformant", "nontrivial": True, "sig": sigs,
+                "detail": list(errs.values())[0], "counts": {"files": files}}
+    return {"ok": True, "outcome": "idl_conformant", "nontrivial": files > 0, "counts": {"files": files}}
 
 
 def _has_spec(ce, sname):
